@@ -20,6 +20,9 @@ CHECKS = {
  "C12": dict(level="exploration", engine="bex", technique="exhaustive small-scope enumeration of unit sizes/headers/clock/seq through the real RTP packers and unpack container, plus ALL arrival permutations and single duplications of short packet streams filtered by a reference reorder-buffer model",
    text="Every unit size around every multiple of the payload limit (L=4,8,16 dense; L=1200 to 300 KiB), every AVC (type 0..23 x NRI) and HEVC (type 0..47 x layer x tid) header, AVCC/Annex-B frames of 1-3 units, audio sizes, 4 clock rates x media times incl. the 32-bit RTP timestamp wrap x first sequence numbers near 65535, through lal's RtpPacker; packets are parsed by a reference RTP parser (limit, marker, seq, timestamp) and depacketised by RFC 6184/7798/3640 reference depacketisers and by lal's RtpUnpackContainer. Every permutation (first packet fixed) and every single duplication of 11 stream shapes x container capacity {2,3,4,16} x 5 first sequence numbers that the reference reorder-buffer model accepts must give the in-order output.",
    note="Trusted: lib/ref/rtp.go. 'Inside the window' is defined by a reference buffer model of capacity W (see assumptions in the evidence). Depacketised timestamps are C07's subject.", design="C12"),
+ "C19": dict(level="exploration", engine="bex", technique="exhaustive small-scope enumeration: parameter-set lengths x content patterns through every representation, unit lists x start-code framings, all 2-byte AudioSpecificConfigs, all codec pairs for SDP, and the product of H.264 SPS syntax alternatives produced by an encoder model (reference writers/readers in lib/ref)",
+   text="(a) SPS/PPS(/VPS) of lengths {natural,255,256,65535} x {1,2,3,4,255,256,65535} x 5 content patterns through lal's sequence-header builders and parsers (and reference-built headers incl. enhanced-RTMP), Annex-B conversions and SDP sprop attributes, compared byte for byte and against a reference record parser / RFC SDP reader; (b) every list of <=3 NAL units x every 3/4-byte start-code mix x leading/trailing zeros through Annex-B<->AVCC; (c) all 31x16x16 two-byte ASCs (+extension bytes) through Unpack/Pack, sequence header, SDP config and ADTS; (d) SDP for every codec pair read by lal and by an RFC 4566 reader; (e) ~150k (quick ~70k) H.264 SPS NAL units from an encoder model covering 16 profiles x chroma formats x scaling lists x POC types x interlace x cropping x VUI x sizes (with real emulation-prevention bytes), and 2k H.265 SPS, with the reported dimensions compared to the spec formulas.",
+   note="Trusted: lib/ref/h26x.go (bit writer, exp-Golomb, emulation prevention, SPS syntax, dimension formulas), lib/ref/sdp.go. HEVC SPS model is basic (no VUI/extensions). Dimensions are read from the parser contexts that the stat API publishes, not through a live group.", design="C19"),
 }
 NOT_YET = "check not built yet in this session (work in progress; see DESIGN.md section for the planned model-checking design)"
 
